@@ -53,7 +53,13 @@ let () =
         let (s, outs) = run init_state ops in
         let (_, souts) = srun specinit ops in
         let b = Buffer.create 64 in
-        List.iter (function Some o -> Buffer.add_string b (show_out o) | None -> ()) outs;
+        (* stepwise replay to report the number of live element objects at every query *)
+        let st = ref init_state in
+        List.iter (fun o -> let (s', out) = step !st o in st := s';
+                    match out with
+                    | Some q -> Buffer.add_string b (show_out q); Buffer.add_string b (Printf.sprintf "live=%d " (int_of_nat (live_slots s')))
+                    | None -> ()) ops;
+        ignore outs;
         Buffer.add_string b (if final_bad s then "final=bad" else "final=ok");
         if not v then Buffer.add_string b " INVALID-HISTORY";
         if outs <> souts then Buffer.add_string b " MODEL-DIFFERS-FROM-SPEC";
@@ -64,7 +70,12 @@ let () =
         let sv = svalid [[]; []; []] ops in
         let (_, souts) = srun0 [[]; []; []] ops in
         let b = Buffer.create 64 in
-        List.iter (function Some l -> Buffer.add_string b ("Q:" ^ String.concat "." (List.map (fun v -> string_of_int (int_of_nat v)) l) ^ " ") | None -> ()) outs;
+        let st = ref vinit in
+        List.iter (fun o -> let (s', out) = vstep !st o in st := s';
+                    match out with
+                    | Some l -> Buffer.add_string b ("Q:" ^ String.concat "." (List.map (fun v -> string_of_int (int_of_nat v)) l) ^ " ");
+                                Buffer.add_string b (Printf.sprintf "live=%d " (int_of_nat (live_elems s'.vheap)))
+                    | None -> ()) ops;
         Buffer.add_string b (if vfinal_ok s then "final=ok" else "final=bad");
         if not sv then Buffer.add_string b " INVALID-HISTORY";
         if outs <> souts then Buffer.add_string b " MODEL-DIFFERS-FROM-SPEC";
